@@ -12,6 +12,7 @@ In all statements `ms` is the sequence *as the engine delivers it*: ascending fo
 pattern, descending for a right-to-left pattern; `none` / `Res.panic` stand for a Go run-time panic.
 -/
 import RegexVerif.Lemmas.Replace
+import RegexVerif.Generated.Replace
 
 namespace RegexVerif.Props.C09
 open RegexVerif RegexVerif.Replace RegexVerif.Lemmas.Replace
@@ -132,6 +133,27 @@ theorem parse_dollar_amp (isWord : Nat → Bool) (env : Env) (h0 : slotOf env 0 
   simp [parse, newReplacerData, scanLoop, scanDollar, dollar, isDigit, buildData, h0,
     ReplacerData.pieces, decodeRule]
 
+/-- **A replacement string without `$` is one literal**: it parses, for every regex, to the single
+    rule "append this text" (the empty string to no rule at all), so `Replace` substitutes it verbatim. -/
+theorem parse_plain (isWord : Nat → Bool) (env : Env) (rep : List Nat) (h : dollar ∉ rep) :
+    parse isWord env rep = .ok (if rep = [] then [] else [Piece.lit rep]) := by
+  simp only [parse, newReplacerData, scanLoop_plain isWord env rep h, buildData_chars]
+  by_cases hr : rep = []
+  · simp [hr, buildData, ReplacerData.pieces]
+  · simp [hr, buildData, ReplacerData.pieces, decodeRule]
+
+/-! the scanner on the ambiguous forms (regex with groups 0, 1 and a group `n` = number 2 in slot 2):
+    `$12` is a literal without ECMAScript and "group 1, then `2`" with it; `${1}0`; `${n}`; `${x}`, `$`, `$$` -/
+def exWord (c : Nat) : Bool := decide (97 ≤ c ∧ c ≤ 122)
+def exEnv (ecma : Bool) : Env := ⟨none, 3, [([110], 2)], ecma⟩
+
+example : parse exWord (exEnv false) [36, 49, 50] = .ok [.lit [36, 49, 50]] := by rfl
+example : parse exWord (exEnv true) [36, 49, 50] = .ok [.group 1, .lit [50]] := by rfl
+example : parse exWord (exEnv false) [36, 123, 49, 125, 48] = .ok [.group 1, .lit [48]] := by rfl
+example : parse exWord (exEnv false) [36, 123, 110, 125, 36, 43] = .ok [.group 2, .lastGroup] := by rfl
+example : parse exWord (exEnv false) [36, 123, 120, 125, 36, 36, 36] = .ok [.lit [36, 123, 120, 125, 36, 36]] := by rfl
+example : parse exWord (exEnv false) [36, 57, 57, 57, 57, 57, 57, 57, 57, 57, 57, 57] = .error .overflow := by rfl
+
 /-- **Replacing with `$&` is the identity**: for every regex environment, every ordered, disjoint,
     in-bounds match sequence in either direction and every count ≥ -1, `Replace(s, "$&")` is `s`. -/
 theorem replace_self_id (isWord : Nat → Bool) (env : Env) (h0 : slotOf env 0 = 0)
@@ -195,6 +217,39 @@ theorem decode_encode (strings : List (List Nat)) (p : Piece) :
   | rightPortion => simp [encodeRule, decodeRule]
   | lastGroup => simp [encodeRule, decodeRule]
   | wholeString => simp [encodeRule, decodeRule]
+
+/-! ### facts regenerated from the Go source on every run (`Generated.Replace`) -/
+
+/-- The two copies of the rule-encoding constants (replace.go and syntax/replacerdata.go) agree
+    with each other and with the numbers the model uses (`replaceSpecials = 4`, specials `-1 … -4`),
+    and the parser's decimal overflow bounds are the model's. -/
+theorem source_constants :
+    Generated.Replace.runConsts = [4, -1, -2, -3, -4] ∧ Generated.Replace.synConsts = Generated.Replace.runConsts
+      ∧ Generated.Replace.maxValueDiv10 = maxValueDiv10 ∧ Generated.Replace.maxValueMod10 = maxValueMod10 := by
+  decide
+
+/-- With the constants of the source, the rule `-replaceSpecials-1-k` written for the special `k`
+    decodes in `replacementImpl` to that special, and group slot 0 (`$&`) to a group lookup. -/
+theorem source_specials_decode :
+    Generated.Replace.runConsts.length = 5 ∧
+    (let c := fun i => Generated.Replace.runConsts.getD i 0
+     decodeRule [] (-(c 0) - 1 - c 1) = .leftPortion ∧ decodeRule [] (-(c 0) - 1 - c 2) = .rightPortion
+       ∧ decodeRule [] (-(c 0) - 1 - c 3) = .lastGroup ∧ decodeRule [] (-(c 0) - 1 - c 4) = .wholeString
+       ∧ decodeRule [] (-(c 0) - 1 - 0) = .group 0) := by
+  decide
+
+/-- The one-character substitutions in the `switch ch` of `scanDollar` are exactly the ones the model's
+    scanner implements: for each `(c, v)` of the source table, `$c` scans to the reference `v`
+    consuming one rune, whatever the regex; and `$$` is a literal `$`. -/
+theorem source_dollar_table (isWord : Nat → Bool) (env : Env) :
+    (∀ p ∈ Generated.Replace.dollarSpecials, scanDollar isWord env [p.1] = .ok (.ref p.2, 1))
+      ∧ Generated.Replace.dollarDollar = true ∧ scanDollar isWord env [36] = .ok (.ch 36, 1) := by
+  have ht : Generated.Replace.dollarSpecials = [(38, 0), (96, -1), (39, -2), (43, -3), (95, -4)] := by decide
+  rw [ht]
+  refine ⟨?_, by decide, by simp [scanDollar, isDigit, dollar]⟩
+  intro p hp
+  simp only [List.mem_cons, List.not_mem_nil, or_false] at hp
+  rcases hp with h | h | h | h | h <;> subst h <;> simp [scanDollar, isDigit]
 
 /-! ### Split -/
 
